@@ -4,6 +4,7 @@ from hypothesis import strategies as st
 import pyModeS as pms
 from ref import crc24, frames
 from vlib import gen
+from vlib import volume
 from vlib.core import Leg, call
 
 PROPERTY = "C02"
@@ -13,7 +14,7 @@ RULE = ("address (uniform 24-bit, 0, all-ones, block edges, letter-rich) x DF 0.
         "different formats and letter cases give the *same string*; adsb.icao / allcall.icao agree; strided sweep of the 2^24 addresses "
         "(all of them in the thorough tier). non-trivial = address and payload non-zero; canonical cases with a letter digit and "
         "differing case or DF"
-        ' Also: real DF17/20/21 frames with their known addresses (leg corpus), addresses chosen so that the AP field repeats six hex digits of the data part, four concurrent callers (leg threads).')
+        ' Also: real DF17/20/21 frames with their known addresses (leg corpus), addresses chosen so that the AP field repeats six hex digits of the data part, four concurrent callers (leg threads), 140 000 / 1.3 million distinct frames in a row in one process (leg volume).')
 ASSUMPTIONS = ["AP/PI overlay per Annex 10 as implemented in ref/crc24.py", "a frame of either length may carry any DF (icao() is documented length-agnostic)"]
 
 AP = (0, 4, 5, 16, 20, 21)
@@ -183,7 +184,27 @@ def chk_threads(case, note):
     return p
 
 
+
+# ---------------------------------------------------------------- volume: one process, very many distinct frames
+VOL_DFS = [17, 18, 11, 4, 5, 20, 21, 0, 16, 4, 20, 17, 24, 19, 1, 22]
+
+
+def vol_step(a, b, k):
+    df = VOL_DFS[a & 15]
+    n = 56 if (df in (0, 4, 5, 11) or (df not in (16, 17, 18, 20, 21) and a & 16)) else 112
+    addr = (a >> 8) & 0xFFFFFF
+    msg = build(addr, df, n, ((a >> 32) << 64) | b, "L" if a & 32 else "U")
+    r = call(pms.icao, msg)
+    if df in AP or df in AA:
+        if r[0] != "ok" or not isinstance(r[1], str) or r[1].upper() != "%06X" % addr:
+            return "icao(%s) -> %r, transponder address %06X (DF%d)" % (msg, r, addr, df)
+    elif r != ("ok", None):
+        return "icao(%s) -> %r, expected None for DF%d" % (msg, r, df)
+    return None
+
+
 LEGS = [
+    volume.leg(vol_step, 140000, 1300000, "140 000 (thorough: 1.3 million per process) distinct frames of all formats through icao() in one process"),
     Leg("threads", chk_threads, enum=enum_threads, shards_quick=4, shards_thorough=8, doc="concurrent callers of icao() with a 1 us switch interval"),
     Leg("corpus", chk_corpus, enum=enum_corpus, exhaustive=True, doc="real DF17/DF20/DF21 frames with their known addresses (upper and lower case)"),
     Leg("exact", chk_exact, strategy=s_exact, quick=30000, thorough=1000000, doc="every DF x both lengths x letter case"),
